@@ -202,6 +202,34 @@ def entriesOf (g : Graph) (e : NodeId × List Str) : List Entry :=
 def genpaths (enc : Str → Str) (g : Graph) (root : NodeId) : List Entry :=
   (sealed enc g root).flatMap (entriesOf g)
 
+/-! ### the walks of one `submit` call
+
+    `ConfigInformation.submit` runs `self.validate_and_seal(job_context)` and then, under
+    `push("__init_tasks__")` / `push(str(ix))`, `init_task.__xpm__.validate_and_seal(job_context)` for every
+    init task: a task that was sealed before its submission (as a parameter of another task, by
+    `instance()`) is not walked, so its init tasks are walked on their own, at the position they have in the
+    task.  Each `validate_and_seal` uses a new `Sealer` (new `visited`), but everything a finished walk
+    visited is sealed afterwards, so threading `visited` over the unchanged flags is the same thing. -/
+
+/-- the init tasks of a configuration with their positions `__init_tasks__` / index (the last part of `nodeRefs`). -/
+def initRefs (enc : Str → Str) (nd : Node) : List Ref :=
+  (refsList enc 0 (nd.initTasks.map Val.ref)).map (prep initKey)
+
+/-- the root walk followed by the walks of the init tasks of `root`, with fuel `fuel` for each walk. -/
+def submitWalk (enc : Str → Str) (g : Graph) (fuel : Nat) (root : NodeId) : W :=
+  let w0 := walkNode enc g fuel [] root {}
+  match g.node root with
+  | none => w0
+  | some nd => (initRefs enc nd).foldl (fun w e => walkNode enc g fuel e.1 e.2 w) w0
+
+/-- configurations sealed by `root.submit()` (graph `g`: init tasks already set), with the key stack of their visit. -/
+def submitSealed (enc : Str → Str) (g : Graph) (root : NodeId) : List (NodeId × List Str) :=
+  (submitWalk enc g (g.nodes.length + 1) root).out
+
+/-- all the paths generated by `root.submit()`, relative to the job directory of `root`. -/
+def submitPaths (enc : Str → Str) (g : Graph) (root : NodeId) : List Entry :=
+  (submitSealed enc g root).flatMap (entriesOf g)
+
 /-! ### submission (graph update), for the driver and the multi-submit correspondence -/
 
 def setAt {α : Type} (l : List α) (i : Nat) (f : α → α) : List α :=
@@ -209,10 +237,11 @@ def setAt {α : Type} (l : List α) (i : Nat) (f : α → α) : List α :=
   | some a => l.set i (f a)
   | none => l
 
-/-- `task.submit(init_tasks=…)`: sets the init tasks, seals, then marks `task.__xpm__.task = task`. -/
+/-- `task.submit(init_tasks=…)`: sets the init tasks, seals (the task, then its init tasks), then marks
+    `task.__xpm__.task = task`. -/
 def submit (enc : Str → Str) (g : Graph) (root : NodeId) (inits : List NodeId) : Graph × List Entry :=
   let g1 : Graph := ⟨setAt g.nodes root (fun nd => { nd with initTasks := inits })⟩
-  let s := sealed enc g1 root
+  let s := submitSealed enc g1 root
   let out := s.flatMap (entriesOf g1)
   let g2 : Graph := ⟨s.foldl (fun ns e => setAt ns e.1 (fun nd => { nd with isSealed := true })) g1.nodes⟩
   (⟨setAt g2.nodes root (fun nd => { nd with task := some root })⟩, out)
